@@ -76,6 +76,17 @@ class Service:
         self.up = False
         self.context = None
         self.n_requests = 0
+        self.resets = set()  # one future per request being served: failed when the service's process crashes
+
+    def crash(self):
+        """the process behind the service dies: it stops listening and every connection it was serving is reset
+        (the handlers themselves never run again: SimLoop.crash)."""
+        self.up = False
+        self.handler = None
+        for f in list(self.resets):
+            if not f.done():
+                f.set_exception(aiohttp.ServerDisconnectedError())
+        self.resets.clear()
 
 
 def _connect_error(url):
@@ -174,24 +185,28 @@ class SimNet:
             # server shutdown): CancelledError is thrown into the handler at a seeded later instant
             ctx.fault('net.handler_cancelled')
             loop.call_later(self.s_delay.ticks(40), task.cancel)
-            try:
-                await asyncio.wait([task])
-            finally:
-                pass
-            if task.cancelled() or task.exception() is not None:
-                raise aiohttp.ServerDisconnectedError()
+        # the connection is reset if the serving process crashes while the request is in flight
+        reset = loop.create_future()
+        svc.resets.add(reset)
         try:
-            if t_total is not None:
-                done, _p = await asyncio.wait([task], timeout=max(t_total - d1, 0))
-                if not done:
-                    ctx.probe('client_timeout_server_continues')
-                    raise asyncio.TimeoutError()
-                res = task.result()
-            else:
-                res = await asyncio.shield(task)
+            done, _p = await asyncio.wait([task, reset], timeout=(max(t_total - d1, 0) if t_total is not None else None),
+                                          return_when=asyncio.FIRST_COMPLETED)
+            if not done:
+                ctx.probe('client_timeout_server_continues')
+                raise asyncio.TimeoutError()
+            if task not in done:
+                ctx.probe('connection_reset_by_crash')
+                raise aiohttp.ServerDisconnectedError()
+            if fault == 'cancel_handler' and (task.cancelled() or task.exception() is not None):
+                raise aiohttp.ServerDisconnectedError()
+            res = task.result()
         except asyncio.CancelledError:
             # the client went away; the server keeps handling the request
             raise
+        finally:
+            svc.resets.discard(reset)
+            if not reset.done():
+                reset.cancel()
         d2 = self.s_delay.ticks(self.max_delay_ticks)
         if d2:
             await asyncio.sleep(d2)
